@@ -8,6 +8,7 @@
 #include "../../vlib/valloc.h"
 #include "../../vlib/vipc.h"
 #include <sys/wait.h>
+#include <sys/prctl.h>
 #include <sys/mman.h>
 #include <sys/stat.h>
 #include <sys/socket.h>
@@ -724,7 +725,7 @@ struct Result { string verdict, klass; uint64_t window = 0, failed = 0; long res
 // runs one (scenario, k, mode) in this process
 Result run_one(const Scen &s, uint64_t k, int mode, long residual_ok = 0) {
   Ctx x; x.k = k; x.mode = mode;
-  char u[64]; snprintf(u, sizeof u, "%d_%s", (int)getpid(), s.name); x.uniq = u;
+  char u[96]; snprintf(u, sizeof u, "%d_%lx_%s", (int)getpid(), ({ struct timespec ts_; clock_gettime(CLOCK_MONOTONIC, &ts_); (long)(ts_.tv_sec * 1000000000L + ts_.tv_nsec); }), s.name); x.uniq = u;
   size_t base_live = va::live_count();
   int base_fds = count_fds();
   int base_maps = count_shm_maps();
@@ -753,6 +754,7 @@ Result run_forked(const Scen &s, uint64_t k, int mode, string *child_out, long r
   fflush(NULL);
   pid_t pid = fork();
   if (pid == 0) {
+    prctl(PR_SET_PDEATHSIG, SIGKILL);
     close(pfd[0]);
     dup2(pfd[1], 2);
     alarm(60);
